@@ -910,9 +910,14 @@ def unpack_extension(data):
         colon = data.index(b':')
         key = data[:colon]
         data = data[colon+1:]
+        # the same rule pack_extension() applies
+        if not re.match(br'^[a-zA-Z_\-]+\Z', key):
+            raise ValueError("invalid key %r in URI extension block" % (key,))
 
         colon = data.index(b':')
         number = data[:colon]
+        if not re.match(br'^(0|[1-9][0-9]*)\Z', number):
+            raise ValueError("invalid length %r in URI extension block" % (number,))
         length = int(number)
         data = data[colon+1:]
 
@@ -920,12 +925,18 @@ def unpack_extension(data):
         assert data[length:length+1] == b','
         data = data[length+1:]
 
-        d[str(key, "utf-8")] = value
+        key = str(key, "utf-8")
+        if key in d:
+            raise ValueError("duplicate key %r in URI extension block" % (key,))
+        d[key] = value
 
     # convert certain things to numbers
     for intkey in ('size', 'segment_size', 'num_segments',
                    'needed_shares', 'total_shares'):
         if intkey in d:
+            if not re.match(br'^(0|[1-9][0-9]*)\Z', d[intkey]):
+                raise ValueError("invalid number %r for %s in URI extension block"
+                                 % (d[intkey], intkey))
             d[intkey] = int(d[intkey])
     return d
 
